@@ -45,6 +45,7 @@ type c13case struct {
 	clientRev, serverRev        int
 	answer                      string
 	delay                       time.Duration
+	closeFails                  bool
 	readTimeout, handshakeTO    time.Duration
 	db, user, pass, quota, name string
 	viaDial                     bool
@@ -88,9 +89,10 @@ func TestC13Handshake(t *testing.T) {
 			readTimeout: rapid.SampledFrom([]time.Duration{0, 50 * time.Millisecond, time.Second}).Draw(rt, "read-timeout"),
 			handshakeTO: rapid.SampledFrom([]time.Duration{0, 10 * time.Second, 2 * time.Second}).Draw(rt, "handshake-timeout"),
 			db:          credStr.Draw(rt, "db"), user: credStr.Draw(rt, "user"), pass: credStr.Draw(rt, "pass"), quota: credStr.Draw(rt, "quota"),
-			name:    rapid.SampledFrom([]string{"", "myapp", "x y"}).Draw(rt, "client-name"),
-			viaDial: rapid.Bool().Draw(rt, "via-dial"),
-			comp:    drawComp(rt),
+			name:       rapid.SampledFrom([]string{"", "myapp", "x y"}).Draw(rt, "client-name"),
+			viaDial:    rapid.Bool().Draw(rt, "via-dial"),
+			comp:       drawComp(rt),
+			closeFails: rapid.IntRange(0, 3).Draw(rt, "close-returns-error") == 0,
 		}
 		effRead := c.readTimeout
 		if effRead == 0 {
@@ -209,6 +211,10 @@ func runC13(rt *rapid.T, c c13case, st *stats.Collector) {
 		effHS = ch.DefaultHandshakeTimeout
 	}
 	d := &simDialer{conn: e.conn}
+	if c.closeFails {
+		// the transport closes, but Close reports an error (TLS close_notify to a peer that is gone, a second close)
+		e.conn.CloseErr = errors.New("close: broken pipe")
+	}
 	start := time.Now()
 	var client *ch.Client
 	var err error
